@@ -242,6 +242,8 @@ def check(acc, m: Mol, seed):
         g[0] += p_ref
         g[2].append(lengths)
     total_ref = sum(g[0] for g in groups.values())  # 1 - (tails beyond the enumerated lengths)
+    # with equal units in neighbouring blocks a molecule also arises from splits beyond the enumerated lengths: at most the tails
+    trunc = sum(1 - (r.cdf_int(n * mu) if r.family == "schulz_zimm" else r.cdf(n * mu)) for r, mu, n in zip(refs, mus, nmax)) if len(refs) > 1 else 0.0
     if any(len(g[2]) > 1 for g in groups.values()):
         acc.label("molecule_with_several_splits")
     for key, (p_ref, mol, tuples) in groups.items():
@@ -264,14 +266,24 @@ def check(acc, m: Mol, seed):
                           {**case0, "lengths": list(lengths)}, sig0, size=len(text))
         got = vals[0]
         total += got
-        tol = tol_abs + 1e-6 * p_ref + delta
+        tol = tol_abs + 1e-6 * p_ref + delta + trunc
         if abs(got - p_ref) > tol and (worst is None or abs(got - p_ref) > worst[0]):
-            worst = (abs(got - p_ref), tuples, got, p_ref, smis[0])
+            worst = (abs(got - p_ref), tuples, got, p_ref, smis[0], mol)
     if worst is not None:
-        _, tuples, got, p_ref, smi = worst
+        _, tuples, got, p_ref, smi, wmol = worst
         lengths = tuples[0]
+        # reported = k x generation probability with k dividing the number of automorphisms of the molecule: assignments of
+        # tokens to atoms that differ only by a symmetry of the molecule were counted separately
+        k_over = int(round(got / p_ref)) if p_ref > 0 else 0
+        over = False
+        if 2 <= k_over <= 24 and abs(got - k_over * p_ref) <= k_over * (tol_abs + 1e-6 * p_ref + delta + trunc):
+            try:
+                naut = len(wmol.GetSubstructMatches(wmol, uniquify=False, maxMatches=100000))
+            except Exception:  # noqa: BLE001
+                naut = 0
+            over = naut > 1 and naut % k_over == 0
         acc.violation("probability", f"{text!r}: chain with {tuples if len(tuples) > 1 else lengths} units ({smi}) has ensemble probability {got:.9g}, generation probability is {p_ref:.9g}",
-                      {**case0, "lengths": list(lengths)}, {**sig0, "double_counted": bool(abs(got - 2 * p_ref) <= 2 * (tol_abs + 1e-6 * p_ref + delta))}, size=len(text))
+                      {**case0, "lengths": list(lengths)}, {**sig0, "double_counted": bool(abs(got - 2 * p_ref) <= 2 * (tol_abs + 1e-6 * p_ref + delta + trunc)), "overcount_by_symmetry": bool(over)}, size=len(text))
     elif abs(total - total_ref) > 1e-6 + 10 * delta + 1e-8 * len(nmax):
         acc.violation("sums_to_one", f"{text!r}: probabilities over all chain lengths (reference mass {total_ref:.9g}) sum to {total:.9g}", case0,
                       {**sig0, "double_counted": bool(abs(total - 2.0) < 1e-5 + 20 * delta)}, size=len(text))
